@@ -607,30 +607,3 @@ Proof.
 Qed.
 
 (** *** Assumption audit: every theorem is closed under the global context *)
-Print Assumptions mk_get_set.
-Print Assumptions mk_get_clear.
-Print Assumptions mk_get_or.
-Print Assumptions mk_contains_spec.
-Print Assumptions mk_contains_any_spec.
-Print Assumptions mk_get_not.
-Print Assumptions mk_get_of_list.
-Print Assumptions mk_to_list_spec.
-Print Assumptions mk_to_list_sorted.
-Print Assumptions mk_eq_ext.
-Print Assumptions m256_get_refines.
-Print Assumptions m256_set_refines.
-Print Assumptions m256_clear_refines.
-Print Assumptions m256_or_refines.
-Print Assumptions m256_not_refines.
-Print Assumptions m256_equals_refines.
-Print Assumptions m256_contains_refines.
-Print Assumptions m256_zero_ok.
-Print Assumptions m256_is_zero_refines.
-Print Assumptions m256_contains_any_refines.
-Print Assumptions m256_to_types_spec.
-Print Assumptions m64_get_refines.
-Print Assumptions m64_set_refines.
-Print Assumptions m64_clear_refines.
-Print Assumptions m64_not_refines.
-Print Assumptions m64_to_types_spec.
-Print Assumptions m64_m256_agree.
